@@ -362,6 +362,12 @@ Proof.
   all: autounfold with agentcore_sk; satG_split_eq; sk_leaf.
 Qed.
 
+(* an application datagram never makes a pair valid *)
+Lemma SK_indata cfg lh src p : satG SK mp_true (step_m cfg (InData lh src p)).
+Proof.
+  cbn [step_m]. autounfold with agentcore_sk; satG_split_eq; sk_leaf.
+Qed.
+
 Theorem SK_api cfg o s :
   is_inbound o = false -> Rc s -> SK s -> SK (fst (step cfg s o)).
 Proof.
